@@ -36,6 +36,7 @@ pub fn cells(tier: Tier) -> Vec<CellPlan> {
     add(cells::vis_despawns("C03", Vis::Whitelist), 0, 1, 2, 1.0);
     add(cells::same_frame3("C03"), 1, 1, 2, 1.0);
     add(cells::wrap("C03", 4), 0, 1, 3, 1.0);
+    add(cells::reinsert("C03"), 1, 2, 4, 1.0);
     v
 }
 
